@@ -276,3 +276,36 @@ func goarchOrDefault(a string) string {
 	}
 	return a
 }
+
+// importRules runs another property's rule set on a scratch report and takes
+// over the obligations whose rule name starts with one of the given prefixes,
+// renamed into this property's namespace: properties that depend on the same
+// structural fact decide it with the same rule.
+func (r *Report) importRules(run func(r2 *Report), newPrefix string, rulePrefixes ...string) int {
+	r2 := newReport(r.Prop, r.Tier)
+	run(r2)
+	n := 0
+	for _, o := range r2.obs {
+		for _, rp := range rulePrefixes {
+			if strings.HasPrefix(o.Rule, rp) {
+				rule := newPrefix + "." + strings.TrimPrefix(strings.TrimPrefix(o.Rule, rp), ".")
+				rule = strings.TrimSuffix(rule, ".")
+				key := strings.TrimPrefix(o.Key, o.Rule+":")
+				n++
+				if o.Status == "violated" {
+					r.bad(rule, key, o.Pos, o.Detail)
+				} else {
+					r.ok(rule, key, o.Pos, o.Detail)
+				}
+				break
+			}
+		}
+	}
+	for _, b := range r2.broken {
+		r.fail("%s", b)
+	}
+	for f := range r2.Functions {
+		r.fn(f)
+	}
+	return n
+}
